@@ -35,6 +35,8 @@ def atoms():
         ("plit", True), ("plit", False), ("pref", "a"),
         ("gt", A, K), ("eq", A, B), ("le", ("add", A, B), M), ("ne", ("neg", A), K), ("lt", B, ("mul", A, ("lit", 2))),
         ("ge", ("sub", A, K), B), ("gt", ("add", A, ("neg", B)), K), ("eq", ("sub", C, ("mul", B, ("lit", 2))), A),
+        # the literal as first operand
+        ("lt", K, A), ("le", ("lit", -1), B), ("gt", M, ("neg", A)), ("ge", ("lit", 3), ("add", A, B)), ("ne", ("lit", 0), A), ("eq", K, B),
         ("inseq", B, (A, K)), ("inseq", A, ()), ("inseq", A, (("lit", 1), ("lit", 1), B)),
         ("inrange", A, 1, 6, 2), ("inrange", ("add", A, B), 0, 4, 1), ("inrange", A, 5, 0, -1), ("inrange", B, 6, -2, -3),
         ("inrange", A, 3, 3, 1), ("inrange", A, 2, 5, -1),
